@@ -34,6 +34,7 @@ EXPLANATION = (
 )
 NONTRIVIAL_RULE = "processed at least one event that ran an action or changed the configuration"
 BOUNDS = {
+    "cut_agree": "C13's chain machine, chain kind fixed per item (mutually enabling always, done.state re-completion, parallel always, action raising its own trigger and three mixed raise chains); maxIterations in [1,5], natural chain length L in [0,7] or unbounded, triggered by an event or by start(): steps run, configuration, context and status after the chain are equal on both engines (done.invoke chains are outside: the asyncio engine passes every link through the event loop by design)",
     "step_agree": "skeletons with parallel states and history (item label); every publicly reachable (configuration, history) pair, every active source, every node as target, reenter in {T,F}: both engines end in the same configuration with the same ordered entry/exit/transition markers, each carrying the triggering event and its payload",
     "resolve_agree": "skeletons with ambiguous keys (CUR8: B.A beside A, custom ids; CUR15: E>D>E, Q>Q, a child named like the machine; CUR9: Z.W beside W); source fixed per item; target = any str of <= L chars that a standard attempt resolves; every configuration/history; both engines must reach the same configuration",
     "engines_seq": "feature machine FM; event sequence of length N (item label) over a 13-letter alphabet, first event fixed per item; 5 guard outcomes symbolic, read lazily",
@@ -163,6 +164,11 @@ def _machine(name: str = "FM") -> Any:
 def set_params(p: Dict[str, Any]) -> None:
     global P
     P = p
+    if "kind" in p:
+        from harness import c13
+
+        c13.set_params({"kind": p["kind"]})
+        return
     if "sid" in p:
         from harness import c01 as base
 
@@ -584,7 +590,49 @@ def step_agree(c0: int, c1: int, c2: int, c3: int, c4: int, c5: int, hsel: int, 
     return verdict(ok, nontrivial=res[0][1] != res[0][3])
 
 
-OBLIGATIONS = {"engines_step": engines_step, "pure_history": pure_history, "engines_seq": engines_seq, "pure_seq": pure_seq, "pure_is_pure": pure_is_pure,
+# ---------------------------------------------------------------------------
+# chains that the maxIterations bound cuts: both engines cut at the same place
+# ---------------------------------------------------------------------------
+
+CUT_KINDS = ["always", "donestate", "par_always", "raise", "alw_raise", "entry_raise", "raise2"]
+RAISE_FAMILY = ("raise", "alw_raise", "entry_raise", "raise2")
+
+
+def cut_agree(mi: int, L: int, inf: bool, at_start: bool) -> bool:
+    """
+    pre: 0 <= L <= 7
+    pre: gate('cut_agree', mi=mi, L=L, inf=inf, at_start=at_start)
+    post: _
+    """
+    from harness import c13
+
+    kind = P["kind"]
+    k = 1 + pick(mi, 5)
+    length = c13.INF if inf else L
+    try:
+        a = c13.run_chain(0, k, kind, length, bool(at_start))
+        b = c13.run_chain(1, k, kind, length, bool(at_start))
+    except c13.FuelExhausted as e:
+        _note(f"chain kind {kind} maxIterations={k} L={'inf' if inf else L} at_start={bool(at_start)}: not cut ({e})")
+        return verdict(False)
+    ok = a == b
+    if not ok:
+        _note(f"chain kind {kind}, maxIterations={k}, natural length {'inf' if inf else L}, triggered by {'start()' if at_start else 'an event'}: "
+              f"sync ran {len(a['steps'])} steps -> {a['cfg'][-1]} {a['ctx']} {a['status']}; asyncio ran {len(b['steps'])} steps -> {b['cfg'][-1]} {b['ctx']} {b['status']}")
+    return verdict(ok, nontrivial=bool(inf) or L > k)
+
+
+def kf_cut_raise_chain_at_start(at_start: Any = False, **_k: Any) -> bool:
+    """Known finding C05-start-raise-chain-cut-differs: a self-raise chain longer than maxIterations that is triggered by
+    start() (first link raised by an entry action) is cut one link later by the asyncio engine than by the sync engine."""
+    return bool(at_start)
+
+
+def kf_applies_cut_raise(params: Dict[str, Any]) -> bool:
+    return params.get("kind") in RAISE_FAMILY
+
+
+OBLIGATIONS = {"cut_agree": cut_agree, "engines_step": engines_step, "pure_history": pure_history, "engines_seq": engines_seq, "pure_seq": pure_seq, "pure_is_pure": pure_is_pure,
                "resolve_agree": resolve_agree, "step_agree": step_agree}
 PROBES = {
     "engines_seq": [{"b1": True, "e1": 4, "e2": 4}, {"b1": True, "b3": True}],
@@ -601,6 +649,8 @@ def items(tier: str, seed: int) -> List[Dict[str, Any]]:
     for first in ALPHA[:-1]:
         out.append({"ob": "pure_seq", "params": {"first": first, "N": 2 if quick else 3}, "timeout": 200 if quick else 1500,
                     "label": f"pure_seq[first={first},N={2 if quick else 3}]"})
+    for kind in CUT_KINDS:
+        out.append({"ob": "cut_agree", "params": {"kind": kind}, "timeout": 280 if quick else 900, "label": f"cut_agree[{kind}]"})
     out.append({"ob": "pure_is_pure", "params": {}, "timeout": 200, "label": "pure_is_pure"})
     out.append({"ob": "pure_history", "params": {}, "timeout": 200, "label": "pure_history"})
     out.append({"ob": "engines_step", "params": {}, "timeout": 280 if quick else 900, "label": "engines_step"})
